@@ -196,9 +196,9 @@ func ParseExpr(src string) (e Expr, err error) {
 type parseErr string
 
 func (ps *parser) fail(f string, a ...interface{}) { panic(parseErr(fmt.Sprintf(f, a...))) }
-func (ps *parser) peek() tok                      { return ps.toks[ps.p] }
-func (ps *parser) next() tok                      { t := ps.toks[ps.p]; ps.p++; return t }
-func (ps *parser) isOp(s string) bool             { t := ps.peek(); return t.k == "op" && t.s == s }
+func (ps *parser) peek() tok                       { return ps.toks[ps.p] }
+func (ps *parser) next() tok                       { t := ps.toks[ps.p]; ps.p++; return t }
+func (ps *parser) isOp(s string) bool              { t := ps.peek(); return t.k == "op" && t.s == s }
 func (ps *parser) accept(s string) bool {
 	if ps.isOp(s) {
 		ps.p++
